@@ -48,7 +48,7 @@ DESIGN_REF = "§5 C20"
 RULE = ("case = (store access path, state kind, <=6 tasks with <=6 operations in total, virtual delays); distinct = hash of the "
         "case spec; non-trivial = at least one operation was issued while another task's edit_state block was open")
 REQUIRED_REACH = ["final_state_oracle", "serial_orders_evaluated", "op_issued_during_open_block",
-                  "cases_memory_shared", "cases_sqlite_shared", "cases_sqlite_per_task", "cases_sqlite1_per_task", "cases_sqlite1_shared", "seeded_store_object", "edit_blocks_run",
+                  "cases_memory_shared", "cases_sqlite_shared", "cases_sqlite_per_task", "cases_sqlite1_per_task", "cases_sqlite1_shared", "tasks_created_inside_an_open_edit_block", "seeded_store_object", "edit_blocks_run",
                   "set_state_run", "set_run", "clear_run",
                   "workflow_cases_plain", "workflow_cases_server_memory", "workflow_cases_server_sqlite",
                   "workflow_final_state_oracle", "workflow_step_contended"]
@@ -118,7 +118,7 @@ def gen_case(rnd):
     # A parent-type set_state on a run whose SQLite row does not exist yet is a sequential defect (C19 signature
     # state_mismatch_after_op/set_state_parent); keep it out of the concurrency verdict by letting the row exist.
     seed_row = any(o.get("cls") == "Parent" for o in ops) or rnd.random() < 0.5
-    return {"backend": backend, "objects": objects, "typed": typed, "seed_row": seed_row, "ops": ops, "tasks": tasks,
+    return {"spawn_in_block": rnd.random() < 0.2, "backend": backend, "objects": objects, "typed": typed, "seed_row": seed_row, "ops": ops, "tasks": tasks,
             "seeded_objects": objects == "per_task" and rnd.random() < 0.4}
 
 
@@ -308,7 +308,16 @@ def run_case(case, env, acc):
             await (shared if shared is not None else new_store()).get_state()
         # every task's store object exists before the first operation runs (a seeded object writes its seed when it is created)
         stores = [shared if shared is not None else new_store(seeded=bool(case.get("seeded_objects")) and i % 2 == 1) for i, _ in enumerate(case["tasks"])]
-        await asyncio.gather(*(task(ids, stores[i]) for i, ids in enumerate(case["tasks"])))
+        if case.get("spawn_in_block"):
+            # the worker tasks are CREATED while an (otherwise empty) edit block is open, e.g. by a step that fans work out from
+            # inside `async with ctx.store.edit_state()`: they inherit that moment's context variables for their whole life
+            acc.hit("tasks_created_inside_an_open_edit_block")
+            async with stores[0].edit_state():
+                kids = [asyncio.ensure_future(task(ids, stores[i])) for i, ids in enumerate(case["tasks"])]
+                await asyncio.sleep(0)
+            await asyncio.gather(*kids)
+        else:
+            await asyncio.gather(*(task(ids, stores[i]) for i, ids in enumerate(case["tasks"])))
         reader = shared if backend == "memory" else new_store()
         out["final"] = extract(await reader.get_state(), typed)
 
